@@ -17,6 +17,7 @@ package net
 
 import (
 	"context"
+	"encoding/binary"
 	"errors"
 	"fmt"
 	"io"
@@ -32,7 +33,6 @@ import (
 	"github.com/libp2p/go-libp2p/core/peer"
 	"github.com/libp2p/go-libp2p/core/peerstore"
 	"github.com/libp2p/go-libp2p/core/protocol"
-	"github.com/multiformats/go-varint"
 	"google.golang.org/protobuf/proto"
 
 	pb "github.com/libp2p/go-libp2p-kad-dht/pb"
@@ -83,7 +83,8 @@ const (
 )
 
 type c11InboxItem struct {
-	tag  int // request id echoed, or -1 for garbage
+	tag  int  // id of the request this reply answers
+	bad  bool // garbage
 	left int // unread bytes
 }
 
@@ -167,8 +168,8 @@ func (h *c11Host) NewStream(ctx context.Context, p peer.ID, _ ...protocol.ID) (n
 
 // c11ParseFrame returns the first complete varint-delimited message of b.
 func c11ParseFrame(b []byte) (msg []byte, n int, ok bool) {
-	l, k, err := varint.FromUvarint(b)
-	if err != nil || len(b) < k+int(l) {
+	l, k := binary.Uvarint(b)
+	if k <= 0 || len(b) < k+int(l) {
 		return nil, 0, false
 	}
 	return b[k : k+int(l)], k + int(l), true
@@ -357,7 +358,7 @@ func (o c11Obs) coq() string {
 		inb := make([]string, len(s.Inbox))
 		for j, x := range s.Inbox {
 			if x < 0 {
-				inb[j] = "RBad"
+				inb[j] = fmt.Sprintf("RBad %d%%nat", -1-x)
 			} else {
 				inb[j] = fmt.Sprintf("RGood %d%%nat", x)
 			}
@@ -442,7 +443,7 @@ func (r *c11Run) launch(t int) {
 
 func c11Frame(m *pb.Message) []byte {
 	raw, _ := proto.Marshal(m)
-	return append(varint.ToUvarint(uint64(len(raw))), raw...)
+	return append(binary.AppendUvarint(nil, uint64(len(raw))), raw...)
 }
 
 // apply performs one driver step on the real code.
@@ -475,18 +476,17 @@ func (r *c11Run) apply(s c11Step, rnd *vfRand) {
 		st.pending = st.pending[1:]
 		if st.cli == c11Open && !st.dead {
 			var b []byte
-			tag := id
+			bad := !s.Ok
 			if s.Ok {
 				b = c11Frame(&pb.Message{Type: pb.Message_FIND_NODE, Key: []byte(fmt.Sprintf("r%d", id))})
 			} else {
-				tag = -1
 				if rnd.Bool() {
 					b = []byte{3, 0xff, 0xff, 0xff} // framed, not a protobuf message
 				} else {
 					b = []byte{0xff, 0xff, 0xff, 0xff, 0x7f} // length prefix far above MessageSizeMax
 				}
 			}
-			st.inbox = append(st.inbox, c11InboxItem{tag: tag, left: len(b)})
+			st.inbox = append(st.inbox, c11InboxItem{tag: id, bad: bad, left: len(b)})
 			st.inbuf = append(st.inbuf, b...)
 			st.cond.Broadcast()
 		}
@@ -545,7 +545,11 @@ func (r *c11Run) observe() c11Obs {
 		if s.cli == c11Open {
 			so.Pending = append([]int(nil), s.pending...)
 			for _, it := range s.inbox {
-				so.Inbox = append(so.Inbox, it.tag)
+				if it.bad {
+					so.Inbox = append(so.Inbox, -1-it.tag)
+				} else {
+					so.Inbox = append(so.Inbox, it.tag)
+				}
 			}
 			so.Reader = s.readers > 0
 		}
